@@ -30,7 +30,8 @@ def gen_cells(rng, columns=None, players=None, measures=None, keysounds=None, de
                 for _c in range(columns):
                     if rng.random() < density:
                         ch = rng.choice(NOTE_CHARS)
-                        ks = rng.choice([None, rng.randint(0, 9), rng.randint(0, 9999)]) if keysounds else None
+                        ks = rng.choice([None, rng.randint(0, 9), rng.randint(0, 9999), 0, 0,
+                                         rng.choice([2**31 - 1, 2**31, 2**32, 2**63, 10**30])]) if keysounds else None
                         row.append([ch, ks])
                     else:
                         row.append(["0", None])
@@ -57,8 +58,11 @@ def render_cells(rng, cells, decorate=True):
         secs = []
         for pm in cells:
             ms = [nl.join("".join(ch + (f"[{ks}]" if ks is not None else "") for ch, ks in row) for row in mm) for mm in pm]
-            secs.append(",".join(ms))
-        return (nl + "&" + nl).join(secs) + (nl if rng.random() < 0.5 else "")
+            # the separator right after the last row of a measure, or at the start of the next measure's first row line
+            sep = rng.choice([",", "," + nl, nl + ","])
+            secs.append(sep.join(ms))
+        lead = rng.choice(["", "", nl, "\t", " " + nl])   # blanks or a blank line before the first row
+        return lead + (nl + "&" + nl).join(secs) + (nl if rng.random() < 0.5 else "")
 
     def blank_lines():
         if deco and rng.random() < 0.3:
